@@ -300,6 +300,7 @@ impl UdpSocket {
             Some((id, l, presented, truncated)) => {
                 let seq = engine::log("udp-recv", id, l as u64);
                 with(|n| n.events.push(NetEvent::Recv { seq, tid: me, sock: self.id, id, src_presented: presented, len: l, truncated }));
+                crate::alloc::begin_input(l);
                 Ok((l, presented))
             }
             None => {
